@@ -276,8 +276,15 @@ func (b *Broker) RegisterNode(id NodeID, node Node, opt ...Option) error {
 // referencing those nodes
 func (b *Broker) RemoveNode(ctx context.Context, id NodeID) error {
 	b.lock.Lock()
-	defer b.lock.Unlock()
-	return b.removeNode(ctx, id, false)
+	node, err := b.detachNode(id, false)
+	b.lock.Unlock()
+	if err != nil {
+		return err
+	}
+
+	// The node is closed without holding the lock, so it is able to use the
+	// Broker (e.g. Send) while closing.
+	return closeNode(ctx, id, node)
 }
 
 // removeNode will remove a node from the broker, if it is not currently  in use.
@@ -286,33 +293,57 @@ func (b *Broker) RemoveNode(ctx context.Context, id NodeID) error {
 // The force option can be used to decrement the count for the node if it's still in use by pipelines
 // This function assumes that the caller holds a lock
 func (b *Broker) removeNode(ctx context.Context, id NodeID, force bool) error {
+	node, err := b.detachNode(id, force)
+	if err != nil {
+		return err
+	}
+
+	return closeNode(ctx, id, node)
+}
+
+// detachNode will remove a node from the broker's registered nodes, if it is
+// not currently in use, and return it so that it can be closed by the caller
+// (see closeNode) once the lock has been released.
+// The force option can be used to decrement the count for the node if it's still
+// in use by pipelines, in which case no node is returned.
+// This function assumes that the caller holds a lock
+func (b *Broker) detachNode(id NodeID, force bool) (Node, error) {
 	if id == "" {
-		return fmt.Errorf("unable to remove node, node ID cannot be empty: %w", ErrInvalidParameter)
+		return nil, fmt.Errorf("unable to remove node, node ID cannot be empty: %w", ErrInvalidParameter)
 	}
 
 	nodeUsage, ok := b.nodes[id]
 	if !ok {
-		return fmt.Errorf("%w: %q", ErrNodeNotFound, id)
+		return nil, fmt.Errorf("%w: %q", ErrNodeNotFound, id)
 	}
 
 	// if force is passed, then decrement the count for this node instead of failing
 	if nodeUsage.referenceCount > 0 && !force {
-		return fmt.Errorf("cannot remove node, as it is still in use by 1 or more pipelines: %q", id)
+		return nil, fmt.Errorf("cannot remove node, as it is still in use by 1 or more pipelines: %q", id)
 	}
 
-	var err error
 	switch nodeUsage.referenceCount {
 	case 0, 1:
-		nc := NewNodeController(nodeUsage.node)
-		if err = nc.Close(ctx); err != nil {
-			err = fmt.Errorf("unable to close node ID %q: %w", id, err)
-		}
 		delete(b.nodes, id)
+		return nodeUsage.node, nil
 	default:
 		nodeUsage.referenceCount--
+		return nil, nil
+	}
+}
+
+// closeNode closes a node which was detached from the broker (nil is ignored).
+func closeNode(ctx context.Context, id NodeID, node Node) error {
+	if node == nil {
+		return nil
 	}
 
-	return err
+	nc := NewNodeController(node)
+	if err := nc.Close(ctx); err != nil {
+		return fmt.Errorf("unable to close node ID %q: %w", id, err)
+	}
+
+	return nil
 }
 
 // PipelineID is a string that uniquely identifies a Pipeline within a given EventType.
@@ -468,26 +499,49 @@ func (b *Broker) RemovePipelineAndNodes(ctx context.Context, t EventType, id Pip
 		return false, errors.New("pipeline ID cannot be empty")
 	}
 
-	b.lock.Lock()
-	defer b.lock.Unlock()
-
-	g, ok := b.graphs[t]
-	if !ok {
-		return false, fmt.Errorf("no graph for EventType %s", t)
+	type detachedNode struct {
+		id   NodeID
+		node Node
 	}
-
-	nodes, err := g.roots.Nodes(id)
-	if err != nil {
-		return false, fmt.Errorf("unable to retrieve all nodes referenced by pipeline ID %q: %w", id, err)
-	}
-
-	g.roots.Delete(id)
-
+	var detached []detachedNode
 	var nodeErr error
 
-	for _, nodeID := range nodes {
-		err = b.removeNode(ctx, nodeID, true)
+	err := func() error {
+		b.lock.Lock()
+		defer b.lock.Unlock()
+
+		g, ok := b.graphs[t]
+		if !ok {
+			return fmt.Errorf("no graph for EventType %s", t)
+		}
+
+		nodes, err := g.roots.Nodes(id)
 		if err != nil {
+			return fmt.Errorf("unable to retrieve all nodes referenced by pipeline ID %q: %w", id, err)
+		}
+
+		g.roots.Delete(id)
+
+		for _, nodeID := range nodes {
+			node, err := b.detachNode(nodeID, true)
+			switch {
+			case err != nil:
+				nodeErr = multierror.Append(nodeErr, err)
+			case node != nil:
+				detached = append(detached, detachedNode{id: nodeID, node: node})
+			}
+		}
+
+		return nil
+	}()
+	if err != nil {
+		return false, err
+	}
+
+	// The nodes are closed without holding the lock, so they are able to use
+	// the Broker (e.g. Send) while closing.
+	for _, d := range detached {
+		if err := closeNode(ctx, d.id, d.node); err != nil {
 			nodeErr = multierror.Append(nodeErr, err)
 		}
 	}
